@@ -98,7 +98,7 @@ def getFingerprintedHostname (E : Env) (hostOf : Str → Option Str) (inferRedir
   | some h => if h.isEmpty then .ok none else (fingerprintHostname E stripSfx h).map some
 
 /-- the options `fingerprint_url` passes to `normalize_url` -/
-def fpOpts : Opts := { queryItemFilter := .lang }
+def fpOpts : Opts := { queryItemFilter := .lang, lowercase := true }
 
 /-- the second pass, from the `SplitResult` of `normalize_url` -/
 def fpParts (E : Env) (stripSfx : Bool) (r : Split) : Except Err Split :=
